@@ -18,7 +18,7 @@ RULE = ('every string of length <= 3 [quick: length 3 only in 5 of the 17 positi
         'definitions only, no Attribute/Import/Lambda/Global/class/decorator/default, every name read is local or an '
         'engine API name, no API name is assigned; (iii) dynamic - the output is loaded with __builtins__ replaced by a '
         'recording mapping and call-counting wrappers around every context entry: loading performs no call and no '
-        'builtin lookup, running the defined predicates performs no builtin lookup; texts that contain a line separator or a payload are also compiled with ALL debug options on (debug stream + code, hostile file name) and judged by the same rules. Plus hostile queries: every API '
+        'builtin lookup, running the defined predicates performs no builtin lookup; texts that contain a line separator or a payload are also compiled with ALL debug options on (debug stream + code, hostile file name) and judged by the same rules. Plus hostile queries: every attribute name of the engine object, every API '
         'name, context key, dunder name and payload as predicate name x arity 0..3 x hostile arguments must yield '
         'nothing, call no API function through the context and touch no builtin. states = distinct (position, '
         'outcome) classes; transitions = compile/load/query operations; non-trivial = code was produced for a hostile string')
@@ -104,6 +104,46 @@ def instrumented_engine():
                 return counted
             yp.eval_context[k] = wrap(v)
     return yp, rec, calls
+
+
+def method_names(yp):
+    return [n for n in dir(yp) if not n.startswith('__') and callable(getattr(yp, n, None))]
+
+
+def watch_methods(yp):
+    """every method of the engine object is replaced (on the instance) by a recording wrapper"""
+    mcalls = []
+    for n in method_names(yp):
+        f = getattr(yp, n)
+
+        def counted(*a, _f=f, _n=n, **kw):
+            mcalls.append(_n)
+            return _f(*a, **kw)
+        try:
+            setattr(yp, n, counted)
+        except Exception:  # noqa: BLE001
+            pass
+    return mcalls
+
+
+_internal = {}
+
+
+def internal_methods(n, kind):
+    """the engine methods that a query for a predicate NOBODY defined goes through (measured on the
+    examined tree itself): what a hostile name may touch without reaching anything"""
+    key = (n, kind)
+    if key not in _internal:
+        yp, rec, calls = instrumented_engine()
+        entry = yp.query
+        mcalls = watch_methods(yp)
+        try:
+            for _ in entry('zz no such predicate', query_args(yp, kind, n)):
+                pass
+        except Exception:  # noqa: BLE001
+            pass
+        _internal[key] = set(mcalls)
+    return _internal[key]
 
 
 class DebugCtx:
@@ -197,7 +237,7 @@ def check_program_1(text, debug):
 # ---- hostile queries
 def query_names():
     yp = impl.YP()
-    names = list(yp.eval_context.keys()) + list(pyast.API) + ['__builtins__', '__class__', '__import__', '__dict__', 'eval', 'exec',
+    names = list(yp.eval_context.keys()) + list(pyast.API) + [n for n in dir(yp) if not n.startswith('__')] + ['__builtins__', '__class__', '__import__', '__dict__', 'eval', 'exec',
                                                                'open', 'print', 'getattr', 'query_2', 'atom_1', 'match', 'match_dynamic_2',
                                                                'unify_2', 'ATOM', 'makelist_1', '', '_', 'n', 'p'] + PAYLOADS
     seen = []
@@ -217,13 +257,19 @@ def query_args(yp, kind, n):
     return [yp.atom('a')] * n
 
 
+BUILTIN_PREDS = {'=', '\\=', 'findall', 'call', 'once', 'assertz', 'asserta', 'retract', 'retractall'}
+
+
 def check_query(name, n, kind):
+    allowed = internal_methods(n, kind)
     yp, rec, calls = instrumented_engine()
+    entry = yp.query
+    mcalls = watch_methods(yp)
     # a harmless loaded program, so that the context is not empty of user predicates
     answers = 0
     try:
         with StepBudget(100000):
-            q = yp.query(name, query_args(yp, kind, n))
+            q = entry(name, query_args(yp, kind, n))
             for _ in q:
                 answers += 1
                 if answers > 3:
@@ -231,13 +277,23 @@ def check_query(name, n, kind):
     except (Exceeded, RecursionError):
         pass
     except Exception as e:  # noqa: BLE001
+        # builtins (=, call, findall ...) may legitimately raise on nonsense arguments
+        if name in BUILTIN_PREDS and not rec.lookups:
+            return ('ok', None, None, ('builtin-predicate-raises', type(e).__name__))
+        reached = [m for m in mcalls if m not in allowed]
+        if reached:
+            return ('violation', 'hostile-query-reaches-api', 'query(%r, %d %s args) raised %r after calling the engine method(s) %s, which a query for an undefined predicate does not go through'
+                    % (name, n, kind, e, sorted(set(reached))[:6]), None)
         if calls or rec.lookups:
             return ('violation', 'hostile-query-reaches-api', 'query(%r, %d %s args) raised %r after calling %s / builtin lookups %s' % (name, n, kind, e, calls[:5], rec.lookups[:5]), None)
-        # builtins (=, call, findall ...) may legitimately raise on nonsense arguments
         return ('ok', None, None, ('query-raises', type(e).__name__))
-    builtin_preds = {'=', '\\=', 'findall', 'call', 'once', 'assertz', 'asserta', 'retract', 'retractall'}
-    if name in builtin_preds:
+    builtin_preds = BUILTIN_PREDS
+    if name in builtin_preds and not rec.lookups:
         return ('ok', None, None, ('builtin-predicate',))
+    reached = [m for m in mcalls if m not in allowed]
+    if reached:
+        return ('violation', 'hostile-query-reaches-api', 'query(%r, %d %s args) called the engine method(s) %s, which a query for an undefined predicate does not go through'
+                % (name, n, kind, sorted(set(reached))[:6]), None)
     api_calls = [c for c in calls if not c.endswith(tuple('_%d' % i for i in range(10))) and not c.endswith('_n')]
     if api_calls or rec.lookups:
         return ('violation', 'hostile-query-reaches-api', 'query(%r, %d %s args) called the API function(s) %s through the context / looked up builtins %s'
